@@ -164,6 +164,12 @@ fn is_pure_simple_target(v: &Value) -> bool {
             };
             is_leaf_pure(&v["object"]) && prop_ok
         }
+        // `super.p` / `super[k]`
+        "SuperPropExpression" => match ty(&v["property"]) {
+            "Identifier" => true,
+            "Computed" => is_leaf_pure(&v["property"]["expression"]),
+            _ => false,
+        },
         _ => false,
     }
 }
@@ -583,7 +589,7 @@ impl Eraser {
         // `(t0 = OBJ, t1 = KEY, t0[t1] = hook(t0[t1] + R, ..))`: the lowering of `OBJ[KEY] += R` with an effectful
         // target. Both copies of the target come from the same single evaluation (the temporaries): fold it
         // back here and do not count the second copy as a second use.
-        if ty(&last) == "AssignmentExpression" && last["operator"] == json!("=") && ty(&last["left"]) == "MemberExpression" {
+        if ty(&last) == "AssignmentExpression" && last["operator"] == json!("=") && matches!(ty(&last["left"]), "MemberExpression" | "SuperPropExpression") {
             let r = &last["right"];
             if ty(r) == "BinaryExpression" && r["operator"] == json!("+") && r.get("$hook").is_some() && equal_ignoring_meta(&last["left"], &r["left"]) {
                 let mut dup = vec![];
@@ -961,9 +967,14 @@ fn child_rank(node_type: &str, key: &str) -> u8 {
 /// object and (computed) key of a member target are substituted temporaries of the sequence `suffix`, or pure leaves
 fn target_parts_from_temps(target: &Value, suffix: &str) -> bool {
     let from_seq = |v: &Value| v.get("$from").and_then(|f| f.as_array()).map(|a| a.iter().any(|n| n.as_str().map(|s| s.ends_with(suffix)).unwrap_or(false))).unwrap_or(false);
-    let leaf = |v: &Value| matches!(ty(v), "Identifier" | "ThisExpression" | "StringLiteral" | "NumericLiteral" | "BooleanLiteral" | "NullLiteral" | "BigIntLiteral" | "RegExpLiteral" | "SuperPropExpression");
-    let obj = &target["object"];
-    let obj_ok = from_seq(obj) || leaf(obj);
+    let leaf = |v: &Value| matches!(ty(v), "Identifier" | "ThisExpression" | "StringLiteral" | "NumericLiteral" | "BooleanLiteral" | "NullLiteral" | "BigIntLiteral" | "RegExpLiteral");
+    // `super[t0] = hook(super[t0] + R, ..)`: `super` itself is not a value
+    let obj_ok = if ty(target) == "SuperPropExpression" {
+        true
+    } else {
+        let obj = &target["object"];
+        from_seq(obj) || leaf(obj)
+    };
     let prop = &target["property"];
     let prop_ok = match ty(prop) {
         "Computed" => from_seq(&prop["expression"]) || leaf(&prop["expression"]),
